@@ -357,6 +357,20 @@ class MySQLHandshakeV10(MySQLPacketBase):  # pylint: disable=too-many-instance-a
     MINIMUM_SIZE = 33
 
     @classmethod
+    def _get_auth_plugin_data_2_len(cls, capabilities, auth_plugin_data_len):
+        """Protocol::HandshakeV10: the second part of the auth plugin data is MAX(13, auth_plugin_data_len - 8)
+        bytes; the length octet is a filler (zero) unless CLIENT_PLUGIN_AUTH is set, and servers older than 5.5.7
+        send the second part with CLIENT_SECURE_CONNECTION alone.
+        """
+
+        if MySQLCapability.CLIENT_PLUGIN_AUTH in capabilities:
+            return max(13, auth_plugin_data_len - 8)
+        if MySQLCapability.CLIENT_SECURE_CONNECTION in capabilities:
+            return 13
+
+        return 0
+
+    @classmethod
     def _parse(cls, parsable):
         if len(parsable) < cls.MINIMUM_SIZE:
             raise NotEnoughData(cls.MINIMUM_SIZE - len(parsable))
@@ -383,11 +397,11 @@ class MySQLHandshakeV10(MySQLPacketBase):  # pylint: disable=too-many-instance-a
         parser.parse_raw('reserved', 10)
         del parser['reserved']
 
-        if MySQLCapability.CLIENT_PLUGIN_AUTH in capabilities:
-            if not auth_plugin_data_len:
-                raise InvalidValue(auth_plugin_data_len, cls, 'auth_plugin_data_len')
+        if MySQLCapability.CLIENT_PLUGIN_AUTH in capabilities and not auth_plugin_data_len:
+            raise InvalidValue(auth_plugin_data_len, cls, 'auth_plugin_data_len')
 
-            auth_plugin_data_2_len = auth_plugin_data_len - 8
+        auth_plugin_data_2_len = cls._get_auth_plugin_data_2_len(capabilities, auth_plugin_data_len)
+        if auth_plugin_data_2_len:
             parser.parse_raw('auth_plugin_data_2', auth_plugin_data_2_len)
 
         if MySQLCapability.CLIENT_PLUGIN_AUTH in capabilities:
@@ -417,18 +431,18 @@ class MySQLHandshakeV10(MySQLPacketBase):  # pylint: disable=too-many-instance-a
         composer.compose_numeric_flags(self.states, 2)
         composer.compose_numeric_flags(capabilities_2, 2, shift_right=16)
 
+        auth_plugin_data_2 = b'' if self.auth_plugin_data_2 is None else self.auth_plugin_data_2
         if MySQLCapability.CLIENT_PLUGIN_AUTH in self.capabilities:
-            auth_plugin_data_len = 8
-            if self.auth_plugin_data_2:
-                auth_plugin_data_len += len(self.auth_plugin_data_2)
-
-            composer.compose_numeric(auth_plugin_data_len, 1)
+            auth_plugin_data_len = 8 + len(auth_plugin_data_2)
         else:
-            composer.compose_numeric(0, 1)
+            auth_plugin_data_len = 0
+        if len(auth_plugin_data_2) != self._get_auth_plugin_data_2_len(self.capabilities, auth_plugin_data_len):
+            # the second part would not be read back as it is written
+            raise InvalidValue(self.auth_plugin_data_2, type(self), 'auth_plugin_data_2')
 
+        composer.compose_numeric(auth_plugin_data_len, 1)
         composer.compose_raw(10 * b'\x00')  # reserved
-        if self.auth_plugin_data_2:
-            composer.compose_raw(self.auth_plugin_data_2)
+        composer.compose_raw(auth_plugin_data_2)
 
         if MySQLCapability.CLIENT_PLUGIN_AUTH in self.capabilities:
             if self.auth_plugin_name is None:
